@@ -289,16 +289,19 @@ def run(tier):
             for o, got in e2e.items():
                 chk.count_case(("e2e-offset", o), True, None)
                 wrong = {k: (got.get(k), v) for k, v in fs.E2E_EXPECT.items() if got.get(k) != v}
-                if wrong and o != 0:
+                stmts = [s for _, s in fs.emitted_calls(c_text)]
+                dropped = o != 0 and sum(1 for s in stmts if f"+{o}U," in s) < 3
+                if wrong and dropped:
                     chk.violation(OFFSET_KEY,
-                                  f"memory.atomic.wait32/wait64/notify with static offset {o}: the emitted call does not use "
-                                  f"operand+offset (observed vs required: {wrong})",
+                                  f"memory.atomic.wait32/wait64/notify with static offset {o}: the emitted call does not pass "
+                                  f"operand+offset and the wrong cell is examined / notified (observed vs required: {wrong})",
                                   {"kind": "e2e-offset", "offsets": [o], "observed": got, "required": fs.E2E_EXPECT,
-                                   "emitted": [s for _, s in fs.emitted_calls(c_text)],
-                                   "replay_cmd": "python3 tools/check.py C17 --replay <this file>"}, True)
+                                   "emitted": stmts, "replay_cmd": "python3 tools/check.py C17 --replay <this file>"}, True)
                 elif wrong:
-                    chk.violation("wait-notify-e2e-offset0", f"wait/notify with offset 0 misbehave end to end: {wrong}",
-                                  {"kind": "e2e-offset", "offsets": [0], "observed": got, "required": fs.E2E_EXPECT}, True)
+                    chk.violation(f"wait-notify-e2e-{'-'.join(sorted(wrong))}",
+                                  f"wait/notify through w2c2+gcc+futex.c (static offset {o}) misbehave: observed vs required {wrong}",
+                                  {"kind": "e2e-offset", "offsets": [o], "observed": got, "required": fs.E2E_EXPECT,
+                                   "emitted": stmts, "replay_cmd": "python3 tools/check.py C17 --replay <this file>"}, True)
             # emit-tokens over random offsets and stack depths
             n_emit = 12 if quick else 60
             emit_bad = []
